@@ -1749,6 +1749,25 @@ func TestCheck(t *testing.T) {
 			if deep > depth && !capped {
 				forEachSeq(ReducedAlphabet, deep, deep, visit)
 			}
+			// many-segment family: segment ids reach two digits (10 sorts before 9 as a string), with the head in a
+			// one-digit segment and the tail in a two-digit one, across a reopen
+			for n := 9; n <= 13 && !capped; n++ {
+				for _, k := range []int{0, 1, n / 2, n - 3, n - 2, n - 1} {
+					for _, tail := range [][]string{{OpReopen}, {OpReopen, OpAppend1}, {OpReopen, OpAdvance, OpAppendSeg, OpReopen}} {
+						var ops []string
+						for i := 0; i < n; i++ {
+							ops = append(ops, OpAppendSeg)
+						}
+						for i := 0; i < k; i++ {
+							ops = append(ops, OpAdvance)
+						}
+						ops = append(ops, tail...)
+						if !visit(ops) {
+							break
+						}
+					}
+				}
+			}
 			if capped {
 				c.Cap(fmt.Sprintf("budget expired before all sequences (full alphabet <= %d, reduced alphabet = %d) were visited", depth, deep))
 			}
